@@ -51,6 +51,7 @@
 #include "draco/mesh/triangle_soup_mesh_builder.h"
 #include "draco/point_cloud/point_cloud_builder.h"
 #include "mc/runner.h"
+#include "mc/geom.h"
 
 using namespace draco;
 
@@ -1027,6 +1028,131 @@ void add_tool_space(mc::Runner &R, const std::string &name, std::vector<int> fil
 
 }  // namespace
 
+// ---------------------------------------------------------------------------
+// Byte-value space for the binary formats: every value 0..255 in every byte of
+// the first point's position / normal floats and colour bytes (the bytes that
+// directly follow the text header of a binary PLY, and the first vertex of an
+// STL facet). A header/record parser that treats some byte value specially
+// (0x0A, 0x0D, 0x20, 0x00 ...) shows up here.
+void run_byte_value_case(uint64_t idx, mc::Ctx &ctx, std::string *desc) {
+  // idx -> (format/geometry kind k in 0..2, field f in 0..26, byte value b)
+  const int b = idx % 256;
+  const int f = (idx / 256) % 27;  // 0..11 position bytes, 12..23 normal bytes, 24..26 colour bytes
+  const int kind = (int)(idx / (256 * 27));  // 0 PLY mesh, 1 PLY cloud, 2 STL mesh
+  auto fl = [&](int field_base, int comp) {
+    uint32_t u = comp == 0 ? 0x3F800000u : comp == 1 ? 0x40000000u : 0xBF000000u;  // 1, 2, -0.5
+    const int byte = f - field_base - 4 * comp;
+    if (byte >= 0 && byte < 4) u = (u & ~(0xFFu << (8 * byte))) | ((uint32_t)b << (8 * byte));
+    float v;
+    memcpy(&v, &u, 4);
+    return v;
+  };
+  mcg::GeomDef g;
+  g.is_mesh = kind != 1;
+  g.num_points = 3;
+  if (g.is_mesh) g.faces = {{0, 1, 2}};
+  mcg::AttDef pos, nrm, col;
+  pos.type = GeometryAttribute::POSITION; pos.dt = DT_FLOAT32; pos.nc = 3; pos.uid = 0;
+  nrm.type = GeometryAttribute::NORMAL; nrm.dt = DT_FLOAT32; nrm.nc = 3; nrm.uid = 1;
+  col.type = GeometryAttribute::COLOR; col.dt = DT_UINT8; col.nc = 3; col.uid = 2;
+  pos.entries.push_back(mcg::bytes_of(std::vector<float>{fl(0, 0), fl(0, 1), fl(0, 2)}));
+  pos.entries.push_back(mcg::bytes_of(std::vector<float>{4.f, 0.f, 0.25f}));
+  pos.entries.push_back(mcg::bytes_of(std::vector<float>{0.f, 8.f, -3.f}));
+  nrm.entries.push_back(mcg::bytes_of(std::vector<float>{fl(12, 0), fl(12, 1), fl(12, 2)}));
+  nrm.entries.push_back(mcg::bytes_of(std::vector<float>{0.f, 0.f, 1.f}));
+  nrm.entries.push_back(mcg::bytes_of(std::vector<float>{0.f, 1.f, 0.f}));
+  for (int p = 0; p < 3; ++p) {
+    std::vector<uint8_t> c = {(uint8_t)(10 + p), (uint8_t)(20 + p), (uint8_t)(30 + p)};
+    if (p == 0 && f >= 24) c[f - 24] = (uint8_t)b;
+    col.entries.push_back(mcg::bytes_of(c));
+  }
+  g.atts = {pos};
+  if (kind != 2) {
+    g.atts.push_back(nrm);
+    g.atts.push_back(col);
+  }
+  if (desc) {
+    *desc = std::string(kind == 0 ? "PLY mesh" : kind == 1 ? "PLY cloud" : "STL mesh") + ", byte value " + std::to_string(b) + " in field byte " +
+            std::to_string(f) + " (0-11 position, 12-23 normal, 24-26 colour of point 0): " + mcg::text(g);
+    return;
+  }
+  if (kind == 2 && f >= 12) return;  // STL carries positions only
+  std::unique_ptr<Mesh> m;
+  std::unique_ptr<PointCloud> pc;
+  if (g.is_mesh) m = mcg::build_mesh(g);
+  else pc = mcg::build_cloud(g);
+  EncoderBuffer out;
+  bool ok;
+  if (kind == 2) {
+    StlEncoder e;
+    ok = e.EncodeToBuffer(*m, &out).ok();
+  } else {
+    PlyEncoder e;
+    ok = g.is_mesh ? e.EncodeToBuffer(*m, &out) : e.EncodeToBuffer(*pc, &out);
+  }
+  ctx.count("byte_value_roundtrips");
+  const std::string tag = kind == 2 ? "stl" : "ply";
+  if (!ok) {
+    ctx.fail(tag + ":byte-values:encoder-refused", mcg::text(g));
+    return;
+  }
+  DecoderBuffer in;
+  in.Init(out.data(), out.size());
+  mcg::RefGeom want = g.is_mesh ? mcg::ref_of(*m, m.get()) : mcg::ref_of(*pc, nullptr), got;
+  if (kind == 2) {
+    StlDecoder d;
+    auto r = d.DecodeFromBuffer(&in);
+    if (!r.ok()) {
+      ctx.fail("stl:byte-values:own-output-rejected", r.status().error_msg_string() + " :: " + mcg::text(g));
+      return;
+    }
+    // STL stores a soup (plus facet normals): compare the position triangles only
+    auto pos_tris = [](const Mesh &mesh) {
+      std::vector<std::string> t;
+      const PointAttribute *pa = mesh.GetNamedAttribute(GeometryAttribute::POSITION);
+      for (FaceIndex fi(0); pa && fi < mesh.num_faces(); ++fi) {
+        std::string c[3];
+        for (int k = 0; k < 3; ++k) {
+          c[k].assign(12, '\0');
+          pa->GetMappedValue(mesh.face(fi)[k], &c[k][0]);
+        }
+        t.push_back(mcg::canon_tri(c[0], c[1], c[2]));
+      }
+      return t;
+    };
+    if (mcg::multiset_of(pos_tris(*r.value())) != mcg::multiset_of(pos_tris(*m))) ctx.fail("stl:byte-values:position-triangles-changed", mcg::text(g));
+    return;
+  }
+  PlyDecoder d;
+  Mesh dm;
+  PointCloud dp;
+  Status st = g.is_mesh ? d.DecodeFromBuffer(&in, &dm) : d.DecodeFromBuffer(&in, &dp);
+  if (!st.ok()) {
+    ctx.fail("ply:byte-values:own-output-rejected", st.error_msg_string() + " :: " + mcg::text(g));
+    return;
+  }
+  got = g.is_mesh ? mcg::ref_of(dm, &dm) : mcg::ref_of(dp, nullptr);
+  // attribute ids may differ after a file round trip: compare the value tuples (positions, normals, colours in this order)
+  const bool same = g.is_mesh ? mcg::multiset_of(got.tris) == mcg::multiset_of(want.tris) : mcg::multiset_of(got.points) == mcg::multiset_of(want.points);
+  if (!same) ctx.fail("ply:byte-values:geometry-changed", mcg::text(g));
+}
+void add_byte_value_space(mc::Runner &R) {
+  mc::Space s;
+  s.name = "binary_byte_values";
+  s.size = 3 * 27 * 256;
+  s.run = [](uint64_t idx, mc::Ctx &ctx) {
+    run_byte_value_case(idx, ctx, nullptr);
+    ctx.nontrivial_unique();
+  };
+  s.describe = [](uint64_t idx) {
+    std::string d;
+    mc::Ctx dummy;
+    run_byte_value_case(idx, dummy, &d);
+    return d;
+  };
+  R.add(s);
+}
+
 int main(int argc, char **argv) {
   mc::Runner R(argc, argv, "C15");
   // libdraco.a registers its stdio file reader from a static initializer of
@@ -1072,6 +1198,7 @@ int main(int argc, char **argv) {
     for (int F = 1; F <= 2; ++F) add_seam_space(R, F, 4, vs, kBuilder, false, true);
   for (int F = 1; F <= 2; ++F) add_seam_space(R, F, 4, 3, kRaw, false, true);
   for (int N = 1; N <= 3; ++N) add_cloud_space(R, N);
+  add_byte_value_space(R);
   {
     std::vector<int> all;
     for (int i = 0; i < (int)tool_files().size(); ++i) all.push_back(i);
